@@ -2,7 +2,10 @@ package chainsim
 
 import (
 	"context"
+	"fmt"
 
+	beacon "github.com/oasisprotocol/oasis-core/go/beacon/api"
+	"github.com/oasisprotocol/oasis-core/go/common"
 	registryState "github.com/oasisprotocol/oasis-core/go/consensus/cometbft/apps/registry/state"
 	registry "github.com/oasisprotocol/oasis-core/go/registry/api"
 )
@@ -32,6 +35,28 @@ func (g *TxGen) mkRegisterRuntime() *GenTx {
 	cur := *sc.Runtime
 	owner := sc.RuntimeOwner.Account
 	rng := g.rng
+	if rng.IntN(5) == 0 {
+		// A NEW compute runtime of the same owner that passes every registry check and the stake
+		// claim, but that another application refuses when it is told about it: the roothash
+		// application rejects descriptors whose message limits exceed its parameters. The
+		// transaction must fail without leaving the descriptor (or its claim) behind.
+		nd := cur
+		g.newRuntimes++
+		nd.ID = common.NewTestNamespaceFromSeed([]byte(fmt.Sprintf("verif chainsim extra runtime %d/%d", g.h.Cfg.Seed, g.newRuntimes)), common.NamespaceTest)
+		nd.GovernanceModel = registry.GovernanceEntity
+		nd.EntityID = sc.RuntimeOwner.PK
+		// a new runtime may not deploy at once
+		nd.Deployments = []*registry.VersionInfo{{Version: rtVersion1, ValidFrom: beacon.EpochTime(g.view().Epoch + 1 + uint64(rng.IntN(2)))}}
+		if rng.IntN(2) == 0 {
+			nd.Executor.MaxMessages = sc.Doc.RootHash.Parameters.MaxRuntimeMessages + 1 + uint32(rng.IntN(3))
+		} else {
+			nd.TxnScheduler.MaxInMessages = sc.Doc.RootHash.Parameters.MaxInRuntimeMessages + 1 + uint32(rng.IntN(3))
+		}
+		tx := registry.NewRegisterRuntimeTx(g.nonce(owner), g.feeSure(3000), &nd)
+		gt := g.finish(owner, tx, "rt-new-refused-by-roothash")
+		gt.Intent = "post:new-runtime-over-roothash-limits"
+		return gt
+	}
 	signer := owner
 	intent := "valid"
 	note := "rt-update"
